@@ -105,7 +105,7 @@ def gen_calibration(rng, tier: str, *, islands=(1, 1, 2, 3), fit_ranges: str = "
     weights_file = False
     if not multi and rng.random() < weights_p:
         if rng.random() < 0.5:
-            weights = [rng.choice([0.5, 1.0, 2.0, 4.0]) for _ in range(nt)]
+            weights = [rng.choice([0.5, 1.5, 2.0, 0.25]) for _ in range(nt)]
         else:
             weights_file = True
     fit_name = rng.choice(["sum_of_abs_residuals", "sum_of_squared_residuals", "reduced_chi_squared"])
@@ -140,6 +140,7 @@ def gen_calibration(rng, tier: str, *, islands=(1, 1, 2, 3), fit_ranges: str = "
             "pygmo_seed": rng.randrange(1, 100000),
             "pipeline_seed": None,
             "target_pad": rng.choice([0, 0, 1]),  # target files larger than the detector
+            "target_dtype": rng.choice([None, None, "int64", "int32"]),
         },
         "sched": {"policy": rng.choice(["fifo", "lifo", "random", "preempt", "pct"]), "workers": rng.choice([1, 2, 3, 4, 8, 16]), "preempt_p": rng.choice([0.05, 0.2]), "pct_d": rng.randint(1, 3), "sim_seed": rng.randrange(2**31)},
     }
@@ -203,7 +204,7 @@ def scn_for_target(scn: dict, i: int) -> dict:
 def simulated(scn: dict, i: int, values: list[float]) -> np.ndarray:
     """Reference-model result bucket (time, y, x) of pair i for calibrated parameter values."""
     s = scn_for_target(scn, i)
-    r = ref.simulate(s, overrides=parameters_to_overrides(scn["mode"]["parameters"], values))
+    r = ref.simulate(s, overrides=parameters_to_overrides(scn["mode"]["parameters"], values), seed=scn["mode"].get("pipeline_seed"))
     b = scn["mode"]["result_type"]
     return np.stack([np.asarray(st[b], dtype=float) for st in r["steps"]])
 
@@ -265,6 +266,8 @@ def write_inputs(scn: dict, scratch: str) -> dict:
         full[:, rows:, :] = 7.0
         full[:, :, cols:] = 7.0
         arr = full if multi else full[0]
+        if m.get("target_dtype"):
+            arr = np.round(arr).astype(m["target_dtype"])  # integer-typed target files (as measured frames usually are)
         p = os.path.join(scratch, f"target_{i}.npy")
         np.save(p, arr)
         paths.append(p)
